@@ -1,3 +1,4 @@
+import Tmv.Model.CommitVerify
 /-! Model of /repo evidence/pool.go + evidence/verify.go (evidence pool: pending / committed key
 spaces, consensus buffer, size counter, expiry) — core Lean only.
 
@@ -6,17 +7,20 @@ Abstractions (parameters of `Ctx`, nothing assumed about them):
           header hash and the common height), `S` proto size of the wrapped evidence message;
 * `sigOK` `pubKey.VerifySignature(VoteSignBytes(chainID, v), v.Signature)`, keyed by the public key's
           address;
-* `lcaOK` verdict of `VerifyLightClientAttack(ev, commonHeader, trustedHeader, commonVals)` as a
-          function of the evidence and of the height the trusted header was taken from.
+* `csigOK` the same for the signatures of a commit (keyed by the identity of the public key), used
+          by C07's model of `VerifyCommitLight` / `VerifyCommitLightTrusting`
+          (`Tmv/Model/CommitVerify.lean`), which `VerifyLightClientAttack` is composed from here.
+Header hashes are tokens: only their equality is ever used.
 The chain (`blocks`) stands for what the block store / state store return for a height:
 header time and validator set. `storeH` is the height both stores have been filled to
 (`blockStore.Height()`; the block commit of height `h` exists only once block `h+1` is saved). -/
 namespace Tmv.Evidence
 
 structure Validator where
-  addr : String
+  addr : String            -- order of the tokens = `bytes.Compare` of the addresses
   power : Int
   pkAddr : String          -- `val.PubKey.Address()`
+  key : Nat := 0           -- identity of the public key
 deriving DecidableEq, Repr
 
 structure Vote where
@@ -38,13 +42,36 @@ structure DV where
   time : Int
 deriving DecidableEq, Repr
 
+/-- one slot of a commit (`CommitSig`): flag byte, address, signature token -/
+structure CSig where
+  flag : Nat
+  addr : String
+  sig : String
+deriving DecidableEq, Repr
+
+/-- the five header fields `ConflictingHeaderIsInvalid` compares (hash tokens) -/
+structure Derived where
+  valsHash : String
+  nextValsHash : String
+  consHash : String
+  appHash : String
+  resultsHash : String
+deriving DecidableEq, Repr
+
 structure LCA where
   common : Int             -- CommonHeight = Height()
-  cfh : Int                -- ConflictingBlock.Height
+  cfh : Int                -- ConflictingBlock.Height (header)
   cft : Int                -- ConflictingBlock.Time
   tvp : Int
   time : Int               -- Timestamp = Time()
-  tag : String             -- everything else (conflicting block, byzantine validators)
+  chash : String           -- ConflictingBlock.Hash()
+  cderived : Derived
+  commitHeight : Int       -- ConflictingBlock.Commit.Height
+  round : Int              -- ConflictingBlock.Commit.Round
+  sigs : List CSig         -- ConflictingBlock.Commit.Signatures
+  cvals : List Validator   -- ConflictingBlock.ValidatorSet.Validators
+  byz : List (String × Int)  -- ByzantineValidators: (address, power) — all that is compared
+  tag : String             -- anything else that distinguishes two objects
 deriving DecidableEq, Repr
 
 inductive Ev where
@@ -67,6 +94,10 @@ def Ev.isLCA : Ev → Bool
 structure Block where
   time : Int
   vals : List Validator
+  hash : String := ""                 -- header hash token
+  derived : Derived := ⟨"", "", "", "", ""⟩
+  round : Int := 0                    -- round of the block's commit (`LoadBlockCommit`)
+  flags : List Nat := []              -- flag bytes of that commit's slots
 deriving Repr
 
 structure Ctx where
@@ -76,7 +107,8 @@ structure Ctx where
   H : Ev → Nat                        -- the hash, read as a big-endian number (key order = byte order)
   S : Ev → Nat
   sigOK : String → Vote → Bool
-  lcaOK : Ev → Int → Bool
+  chainID : String := ""
+  csigOK : Nat → CommitVerify.SignBytes → String → Bool := fun _ _ _ => false
 
 /-- latest state (`sm.State`): only the fields the pool reads -/
 structure State where
@@ -137,6 +169,7 @@ inductive VErr where
   | noHeader | time | expired | noVals
   | notVal | hrs | addr | sameBlock | pkAddr | power | total | sigA | sigB
   | lcaNoHeader | lcaLatestBefore | lcaBad
+  | lcaPanic       -- nil validator / index out of range inside GetByzantineValidators etc.
 deriving DecidableEq, Repr
 
 /-- `VerifyDuplicateVote`, clause by clause -/
@@ -154,8 +187,150 @@ def verifyDV (d : DV) (vals : List Validator) : Except VErr Unit :=
     else if ¬ c.sigOK val.pkAddr d.b then .error .sigB
     else .ok ()
 
+/-! ### VerifyLightClientAttack (evidence/verify.go) with GetByzantineValidators and
+ConflictingHeaderIsInvalid (types/evidence.go); the commit checks are C07's model -/
+
+def toCV (v : Validator) : CommitVerify.Validator :=
+  { addr := v.addr.toUTF8.toList, key := v.key, power := v.power }
+
+/-- the commit block id only matters through its well-formedness (signatures are a parameter) -/
+def someBlockID : CommitVerify.BlockID := ⟨List.replicate 32 1, 1, List.replicate 32 2⟩
+
+def toCommit (l : LCA) : CommitVerify.Commit String :=
+  { height := l.commitHeight, round := l.round, blockID := someBlockID,
+    sigs := l.sigs.map fun s => { flag := s.flag, addr := s.addr.toUTF8.toList, ts := 0, sig := s.sig } }
+
+/-- `ConflictingHeaderIsInvalid(trusted)` -/
+def headerInvalid (l : LCA) (trusted : Block) : Bool :=
+  trusted.derived.valsHash != l.cderived.valsHash ||
+  trusted.derived.nextValsHash != l.cderived.nextValsHash ||
+  trusted.derived.consHash != l.cderived.consHash ||
+  trusted.derived.appHash != l.cderived.appHash ||
+  trusted.derived.resultsHash != l.cderived.resultsHash
+
+/-- `ValidatorsByVotingPower.Less` -/
+def byPowerLess (a b : Validator) : Bool :=
+  if a.power = b.power then a.addr < b.addr else a.power > b.power
+
+def insertByPower (v : Validator) : List Validator → List Validator
+  | [] => [v]
+  | x :: xs => if byPowerLess x v then x :: insertByPower v xs else v :: x :: xs
+
+/-- `sort.Sort(ValidatorsByVotingPower(..))` (the order is total up to identical entries) -/
+def sortByPower (l : List Validator) : List Validator := l.foldr insertByPower []
+
+def findVal (vs : List Validator) (addr : String) : Option Validator := vs.find? (fun v => v.addr = addr)
+
+/-- lunatic: validators of the common set with a for-block slot in the conflicting commit -/
+def lunaticSigners (l : LCA) (commonVals : List Validator) : List Validator :=
+  l.sigs.filterMap fun s => if s.flag = CommitVerify.flagCommit then findVal commonVals s.addr else none
+
+/-- equivocation: slots present (not absent) in both commits, looked up in the conflicting set by
+the slot's (unauthenticated) address, unknown addresses skipped; `none` = the code panics (slot
+index beyond the trusted commit) -/
+def equivocators (l : LCA) : List CSig → List Nat → Option (List Validator)
+  | [], _ => some []
+  | s :: ss, fl =>
+    if s.flag = CommitVerify.flagAbsent then
+      match fl with
+      | [] => equivocators l ss []        -- `continue` before the trusted slot is read
+      | _ :: ft => equivocators l ss ft
+    else
+      match fl with
+      | [] => none                         -- trusted.Commit.Signatures[i]: index out of range
+      | f :: ft =>
+        if f = CommitVerify.flagAbsent then equivocators l ss ft
+        else
+          match findVal l.cvals s.addr with
+          | none => equivocators l ss ft
+          | some v => (equivocators l ss ft).map (fun r => v :: r)
+
+/-- `GetByzantineValidators(commonVals, trusted)`; `none` = panic -/
+def getByz (l : LCA) (commonVals : List Validator) (trusted : Block) : Option (List Validator) :=
+  if headerInvalid l trusted then some (sortByPower (lunaticSigners l commonVals))
+  else if trusted.round = l.round then (equivocators l l.sigs trusted.flags).map sortByPower
+  else some []
+
+inductive LErr where
+  | trusting | derived | commit | total | time | sameHash | byzNil | byzCount | byzAddr | byzPower | panic
+deriving DecidableEq, Repr
+
+/-- the loop of `validateABCIEvidence` -/
+def byzMatch : List Validator → List (String × Int) → Except LErr Unit
+  | [], _ => .ok ()
+  | _ :: _, [] => .ok ()                   -- unreachable: lengths are equal
+  | v :: vs, b :: bs =>
+    if b.1 ≠ v.addr then .error .byzAddr
+    else if b.2 ≠ v.power then .error .byzPower
+    else byzMatch vs bs
+
+def totalOf (vs : List Validator) : Option Int := CommitVerify.totalVotingPower (vs.map toCV)
+
+/-- `validateABCIEvidence` -/
+def validateABCI (l : LCA) (commonVals : List Validator) (trusted : Block) : Except LErr Unit :=
+  match totalOf commonVals with
+  | none => .error .panic
+  | some total =>
+    if l.tvp ≠ total then .error .total
+    else
+      match getByz l commonVals trusted with
+      | none => .error .panic
+      | some validators =>
+        -- `validators == nil && len(ev.ByzantineValidators) != 0` (`validators` is nil exactly when
+        -- nothing was appended)
+        if validators.length = 0 ∧ l.byz.length ≠ 0 then .error .byzNil
+        else if validators.length ≠ l.byz.length then .error .byzCount
+        else byzMatch validators l.byz
+
+def cvOK : CommitVerify.Res → Except LErr Unit
+  | .ok => .ok ()
+  | .panicFlag | .panicBlockID | .panicTotal | .panicIndex => .error .panic
+  | _ => .error .commit
+
+/-- `VerifyLightClientAttack(e, commonHeader, trustedHeader, commonVals, now, trustPeriod)`: `now`
+and `trustPeriod` are not used by the code -/
+def verifyLightClientAttack (l : LCA) (commonHeight : Int) (commonVals : List Validator)
+    (trustedHeight : Int) (trusted : Block) : Except LErr Unit :=
+  let jump : Except LErr Unit :=
+    if commonHeight ≠ l.cfh then
+      match CommitVerify.verifyCommitLightTrusting c.csigOK (commonVals.map toCV) c.chainID (toCommit l) 1 3 with
+      | .ok => .ok ()
+      | .panicFlag | .panicBlockID | .panicTotal | .panicIndex => .error .panic
+      | _ => .error .trusting
+    else if headerInvalid l trusted then .error .derived
+    else .ok ()
+  match jump with
+  | .error e => .error e
+  | .ok _ =>
+    match cvOK (CommitVerify.verifyCommitLight c.csigOK (l.cvals.map toCV) c.chainID someBlockID l.cfh (toCommit l)) with
+    | .error e => .error e
+    | .ok _ =>
+      match totalOf commonVals with
+      | none => .error .panic
+      | some total =>
+        if l.tvp ≠ total then .error .total
+        else if l.cfh > trustedHeight ∧ l.cft > trusted.time then .error .time
+        else if ¬ (l.cfh > trustedHeight ∧ l.cft > trusted.time) ∧ trusted.hash = l.chash then .error .sameHash
+        else validateABCI l commonVals trusted
+
+/-- the verdict `verify` gets for trusted header taken at `th` (both headers and the validator
+set are what the stores return for those heights) -/
+def lcaVerdict (l : LCA) (th : Int) : Except LErr Unit :=
+  match blockAt c l.common, blockAt c th with
+  | some cb, some tb => verifyLightClientAttack c l l.common cb.vals th tb
+  | _, _ => .error .panic
+
+def lcaOK (l : LCA) (th : Int) : Bool :=
+  match lcaVerdict c l th with | .ok _ => true | .error _ => false
+
 /-- the light-client-attack branch of `verify` (header selection is the code's; the verdict of
 `VerifyLightClientAttack` is the parameter `lcaOK`) -/
+def lcaRes (l : LCA) (th : Int) : Except VErr Unit :=
+  match lcaVerdict c l th with
+  | .ok _ => .ok ()
+  | .error .panic => .error .lcaPanic
+  | .error _ => .error .lcaBad
+
 def verifyLCA (storeH : Int) (l : LCA) : Except VErr Unit :=
   match signedHeader c storeH l.common with
   | none => .error .lcaNoHeader
@@ -165,15 +340,15 @@ def verifyLCA (storeH : Int) (l : LCA) : Except VErr Unit :=
     | some _ =>
       if l.common ≠ l.cfh then
         match signedHeader c storeH l.cfh with
-        | some _ => if c.lcaOK (.lca l) l.cfh then .ok () else .error .lcaBad
+        | some _ => lcaRes c l l.cfh
         | none =>
           -- forward lunatic attack: take the latest header the node has
           match signedHeader c storeH storeH with
           | none => .error .lcaNoHeader
           | some t =>
             if t < l.cft then .error .lcaLatestBefore
-            else if c.lcaOK (.lca l) storeH then .ok () else .error .lcaBad
-      else if c.lcaOK (.lca l) l.cfh then .ok () else .error .lcaBad
+            else lcaRes c l storeH
+      else lcaRes c l l.cfh
 
 /-- `Pool.verify` -/
 def verify (storeH : Int) (st : State) (e : Ev) : Except VErr Unit :=
